@@ -100,8 +100,8 @@ let judge op args got =
       let asis = simplest_from_ieee_asis mb eb bits in
       let e = Zar.logand (Zar.shift_right bits (Zar.to_int mb)) (Zar.pred (Zar.shift_left Zar.one (Zar.to_int eb))) in
       let m = Zar.logand bits (Zar.pred (Zar.shift_left Zar.one (Zar.to_int mb))) in
-      let large = known_ieee mb eb bits in
-      let known_tag = if large then Some "ieee_large_exponent_interval" else None in
+      let large = known_ieee mb eb bits in   (* class of the repaired finding F04 (ulp >= 2): histogram only *)
+      let known_tag = None in
       let cls = if Zar.sign e = 0 then "subnormal" else if Zar.sign m = 0 then "pow2" else if large then "large" else "normal" in
       (* self-check of the interval specification against the shared rounding specification:
          an end point is included iff it rounds to the float, and the specified answer rounds to it *)
